@@ -15,7 +15,7 @@
    small_frame  - the frame is shorter than 10^4300 bytes (int() refuses longer BodyLength texts).
    decoded_of   - root container [8; 9; 35; 49; 56; 34; 52] ++ body of m (same order, values, nesting,
                   item count, item order) ++ [10].                                                      *)
-From Coq Require Import ZArith NArith List Bool.
+From Coq Require Import ZArith NArith List Bool String.
 From AF Require Import Base.Sx Py.Str Fix.Codec Fix.WfMsg Lemmas.RoundTripL.
 From AFGen Require Import GenGroups.
 Import ListNotations.
@@ -60,7 +60,16 @@ Theorem C01_roundtrip_depth1 : forall G bs m sess time raw frame sess',
 Proof. exact roundtrip_depth1. Qed.
 Print Assumptions C01_roundtrip_depth1.
 
-(* the regenerated FIX 4.4 table satisfies the table hypothesis (all 31 groups, none excluded) *)
+(* the D5 hypothesis is exactly a predicate on the rendered fields: the marker occurs past offset 0 of
+   the frame iff some field after the first contains "8=FIX." (a value containing it, or a tag ending
+   in 8 with a value starting "FIX."), or the BeginString field contains it again *)
+Theorem C01_marker_class : forall bs m sess time raw frame sess' seq,
+  wf_bs bs = true -> encode bs m sess time raw = Ok (frame, sess') -> select_seq m sess raw = Ok (seq, sess') ->
+  no_marker frame = no_marker_fields_b bs m sess seq time.
+Proof. exact no_marker_frame_fields. Qed.
+Print Assumptions C01_marker_class.
+
+(* the regenerated FIX 4.4 table satisfies the table hypothesis (all 29 groups, none excluded) *)
 Theorem C01_fix44_table_wf : wf_table GenGroups.table = true.
 Proof. exact fix44_table_wf. Qed.
 Print Assumptions C01_fix44_table_wf.
@@ -89,3 +98,19 @@ Theorem C01_marker_refuted : forall m, m = ex_marker_tag \/ m = ex_marker_value 
   /\ decode GenGroups.table beginstring (ex_frame m) true = Ok (None, zlen (ex_frame m), None).
 Proof. exact marker_refuted. Qed.
 Print Assumptions C01_marker_refuted.
+
+(* the structural hypotheses are forced as well (candidates for known-finding classes): messages whose
+   groups use member tags only, yet are outside wf_msg, and decode to a different structure:
+   a root-level Commission (12) after NoAllocs is absorbed into the last item; items that do not start
+   with a tag of the previous item merge; items that start with a nested group merge *)
+Theorem C01_structure_refuted :
+  (wf_msg GenGroups.table ex_follower = false /\ no_marker (ex_frame ex_follower) = true
+   /\ decoded_tag ex_follower "78" = Some (VGrp [[plain "79" "acc"; plain "80" "100"; plain "12" "5.0"]])
+   /\ decoded_tag ex_follower "12" = None)
+  /\ (wf_msg GenGroups.table ex_item_head = false /\ no_marker (ex_frame ex_item_head) = true
+      /\ decoded_tag ex_item_head "78" = Some (VGrp [[plain "79" "a"; plain "80" "b"]]))
+  /\ (wf_msg GenGroups.table ex_item_group_head = false /\ no_marker (ex_frame ex_item_group_head) = true
+      /\ decoded_tag ex_item_group_head "78"
+         = Some (VGrp [[grp "539" [[plain "524" "p"]; [plain "524" "q"]]]])).
+Proof. exact structure_refuted. Qed.
+Print Assumptions C01_structure_refuted.
